@@ -7,6 +7,7 @@
 package forge
 
 import (
+	"bytes"
 	"crypto/aes"
 	"crypto/cipher"
 	"crypto/rsa"
@@ -92,8 +93,9 @@ type EncSpec struct {
 type AssertionSpec struct {
 	ID             string         `json:"id"`
 	IssueInstant   string         `json:"issue_instant"`
-	Version        *string        `json:"version,omitempty"` // nil = "2.0"
-	Issuer         *string        `json:"issuer"`            // nil = no Issuer element
+	Version        *string        `json:"version,omitempty"`       // nil = "2.0"
+	Issuer         *string        `json:"issuer"`                  // nil = no Issuer element
+	IssuerFormat   string         `json:"issuer_format,omitempty"` // Format attribute of the Issuer: "" = entity | "-" = none | literal
 	NoSubject      bool           `json:"no_subject,omitempty"`
 	NameID         *string        `json:"name_id"`
 	NameIDFormat   string         `json:"name_id_format,omitempty"`
@@ -119,7 +121,8 @@ type ResponseSpec struct {
 	IssueInstant string          `json:"issue_instant"`
 	Version      *string         `json:"version,omitempty"`
 	Issuer       *string         `json:"issuer"`
-	Status       []string        `json:"status"` // nested status codes, outermost first; empty = no Status element
+	IssuerFormat string          `json:"issuer_format,omitempty"` // Format attribute of the Issuer: "" = entity | "-" = none | literal
+	Status       []string        `json:"status"`                  // nested status codes, outermost first; empty = no Status element
 	StatusMsg    *string         `json:"status_msg,omitempty"`
 	Assertions   []AssertionSpec `json:"assertions"`
 	Sign         *SignSpec       `json:"sign,omitempty"`
@@ -131,6 +134,7 @@ type ArtifactSpec struct {
 	InResponseTo *string   `json:"in_response_to"`
 	IssueInstant string    `json:"issue_instant"`
 	Issuer       *string   `json:"issuer"`
+	IssuerFormat string    `json:"issuer_format,omitempty"` // Format attribute of the Issuer: "" = entity | "-" = none | literal
 	Status       []string  `json:"status"`
 	Sign         *SignSpec `json:"sign,omitempty"`
 }
@@ -143,6 +147,7 @@ type LogoutSpec struct {
 	IssueInstant string    `json:"issue_instant"`
 	Version      *string   `json:"version,omitempty"`
 	Issuer       *string   `json:"issuer"`
+	IssuerFormat string    `json:"issuer_format,omitempty"` // Format attribute of the Issuer: "" = entity | "-" = none | literal
 	Status       []string  `json:"status"`
 	Sign         *SignSpec `json:"sign,omitempty"`
 }
@@ -153,9 +158,16 @@ func setAttr(el *etree.Element, name string, v *string) {
 	}
 }
 
-func issuerEl(v string) *etree.Element {
+// issuerEl: format "" = the entity format (what IdPs write), "-" = no Format attribute, else literal.
+func issuerEl(v string, format string) *etree.Element {
 	el := etree.NewElement("saml:Issuer")
-	el.CreateAttr("Format", "urn:oasis:names:tc:SAML:2.0:nameid-format:entity")
+	switch format {
+	case "":
+		el.CreateAttr("Format", "urn:oasis:names:tc:SAML:2.0:nameid-format:entity")
+	case "-":
+	default:
+		el.CreateAttr("Format", format)
+	}
 	el.SetText(v)
 	return el
 }
@@ -195,7 +207,7 @@ func AssertionElement(a *AssertionSpec) *etree.Element {
 	el.CreateAttr("ID", a.ID)
 	el.CreateAttr("IssueInstant", a.IssueInstant)
 	if a.Issuer != nil {
-		el.AddChild(issuerEl(*a.Issuer))
+		el.AddChild(issuerEl(*a.Issuer, a.IssuerFormat))
 	}
 	if !a.NoSubject {
 		sub := el.CreateElement("saml:Subject")
@@ -377,13 +389,7 @@ func BuildAssertion(a *AssertionSpec) (*etree.Element, error) {
 		if a.OmitNSDeclSelf {
 			el.CreateAttr("xmlns:saml", NSAssertion)
 		}
-		doc := etree.NewDocument()
-		doc.SetRoot(el)
-		plain, err := doc.WriteToBytes()
-		if err != nil {
-			return nil, err
-		}
-		return EncryptAssertion(plain, a.Encrypt)
+		return EncryptAssertion(Bytes(el), a.Encrypt)
 	}
 	return el, nil
 }
@@ -403,7 +409,7 @@ func ResponseElement(r *ResponseSpec) (*etree.Element, error) {
 	el.CreateAttr("IssueInstant", r.IssueInstant)
 	setAttr(el, "Destination", r.Destination)
 	if r.Issuer != nil {
-		el.AddChild(issuerEl(*r.Issuer))
+		el.AddChild(issuerEl(*r.Issuer, r.IssuerFormat))
 	}
 	if st := statusEl(r.Status, r.StatusMsg); st != nil {
 		el.AddChild(st)
@@ -440,6 +446,11 @@ func Bytes(el *etree.Element) []byte {
 	if err != nil {
 		panic(err)
 	}
+	// a carriage return inside a value is spelled as a character reference: written literally, any XML
+	// parser would read it back as a line feed and the receiver would see other content than was signed
+	if bytes.IndexByte(b, '\r') >= 0 {
+		b = bytes.ReplaceAll(b, []byte("\r"), []byte("&#xD;"))
+	}
 	return b
 }
 
@@ -462,7 +473,7 @@ func BuildArtifact(a *ArtifactSpec, response *etree.Element) (*etree.Element, er
 	ar.CreateAttr("Version", "2.0")
 	ar.CreateAttr("IssueInstant", a.IssueInstant)
 	if a.Issuer != nil {
-		ar.AddChild(issuerEl(*a.Issuer))
+		ar.AddChild(issuerEl(*a.Issuer, a.IssuerFormat))
 	}
 	if st := statusEl(a.Status, nil); st != nil {
 		ar.AddChild(st)
@@ -497,7 +508,7 @@ func BuildLogout(l *LogoutSpec) (*etree.Element, error) {
 	el.CreateAttr("IssueInstant", l.IssueInstant)
 	setAttr(el, "Destination", l.Destination)
 	if l.Issuer != nil {
-		el.AddChild(issuerEl(*l.Issuer))
+		el.AddChild(issuerEl(*l.Issuer, l.IssuerFormat))
 	}
 	if st := statusEl(l.Status, nil); st != nil {
 		el.AddChild(st)
